@@ -174,6 +174,9 @@ def hasBuiltin (recv : Val) (name : String) : Bool :=
 /-- built-ins that neither call back into the evaluator nor touch scopes -/
 def pureBuiltin (name : String) (recv : Val) (args : List Val) : M Val :=
   match name, recv, args with
+  | "p", .diamond, _ => readLine >>== fun l => printLine (l.getD "") >>== fun _ => pureM .nil
+  | "S", .diamond, _ => readLine >>== fun l => pureM (.str (l.getD ""))
+  | _, .diamond, _ => unsupported "this property of the diamond"
   | "p", v, _ => printLine v.toS >>== fun _ => pureM .nil
   | "S", v, _ => pureM (.str v.toS)
   | "repr", v, _ => pureM (.str v.repr)
@@ -206,6 +209,7 @@ def pureBuiltin (name : String) (recv : Val) (args : List Val) : M Val :=
 inductive Src where
   | elems (xs : List Val)
   | iter (id : Nat)
+  | stdin
 
 mutual
 
@@ -216,7 +220,7 @@ def evalE : Nat → Expr → Nat → M Val
     match e with
     | .int n => pureM (.int n)
     | .str s => pureM (.str s)
-    | .diamond => unsupported "diamond"
+    | .diamond => pureM .diamond
     | .ident x =>
       getVar env x >>== fun r =>
       match r with
@@ -508,6 +512,7 @@ def srcOf : Nat → Val → M Src
   | _ + 1, .iter id =>
     getIter id >>== fun it =>
     copyIter it >>== fun cid => pureM (.iter cid)
+  | _ + 1, .diamond => pureM .stdin
   | _ + 1, _ => unsupported "chain over this receiver"
 
 /-- `iterHandler.Next`: the next element, `none` at StopIterErr -/
@@ -515,6 +520,10 @@ def nextElem : Nat → Src → M (Option (Val × Src))
   | 0, _ => outOfFuel
   | _ + 1, .elems [] => pureM none
   | _ + 1, .elems (x :: xs) => pureM (some (x, .elems xs))
+  | _ + 1, .stdin => readLine >>== fun l =>
+    match l with
+    | some line => pureM (some (.str line, .stdin))
+    | none => pureM none
   | fuel + 1, .iter id =>
     fun s =>
       match iterNext fuel id s with
